@@ -443,3 +443,9 @@ KEEP += [
     ('K110', CO, "        self.detect_collisions(&joint_poses_f32, &safety_distances, None)", "        self.detect_collisions(&joint_poses_f32, &safety_distances, Some(safety_distances.mode))", ['C10', 'C11'], 'near states the mode of the table it was given'),
     ('K111', K, "    let mut diff = (angle1 - angle2).abs();\n    diff = diff % (2.0 * PI);\n    while diff > PI {\n        diff = (2.0 * PI) - diff;\n    }\n    diff < SINGULARITY_ANGLE_THR", "    let diff = (angle1 - angle2).rem_euclid(2.0 * PI);\n    diff < SINGULARITY_ANGLE_THR || 2.0 * PI - diff < SINGULARITY_ANGLE_THR", ['C05'], 'discriminator through rem_euclid'),
 ]
+
+MUTANTS += [
+    ('M87', K, "                        now[J4] = previous[J4] + j_d;\n                        now[J6] = previous[J6] + j_d;\n\n                        // Check last time if the pose is ok\n                        let check_pose = self.forward(&now);\n                        if compare_poses(&pose, &check_pose, DISTANCE_TOLERANCE, ANGULAR_TOLERANCE) &&\n                            self.constraints_compliant(now) {",
+     "                        let within_limits = self.constraints_compliant(now);\n                        now[J4] = previous[J4] + j_d;\n                        now[J6] = previous[J6] + j_d;\n\n                        // Check last time if the pose is ok\n                        let check_pose = self.forward(&now);\n                        if compare_poses(&pose, &check_pose, DISTANCE_TOLERANCE, ANGULAR_TOLERANCE) &&\n                            within_limits {",
+     'C08', 'R08.3', 'limits of the recovered candidate checked before J4/J6 are redistributed'),
+]
